@@ -927,8 +927,6 @@ where
     T: Hash + Eq,
     str: Equivalent<T>,
 {
-    let (from, replaced) = set.replace_full(rule);
-
     let mut to = default_position;
 
     if let Some(rule_id) = after {
@@ -944,6 +942,10 @@ where
 
         to = idx;
     }
+
+    // Only modify the set after the parameters were validated, so that an error leaves it
+    // unchanged.
+    let (from, replaced) = set.replace_full(rule);
 
     // Only move the item if it's new or if it was positioned.
     if replaced.is_none() || after.is_some() || before.is_some() {
